@@ -1,5 +1,111 @@
+/-
+Driver operations for C06: `automaton_accepted` (with memo threading across a sequence of
+calls), `enumerate_words`, `free_automaton`, `freely_reduced_elements`, `free_words_*`,
+executed over ℚ.  States are natural numbers on the wire (the harness numbers the Python
+states), `null` is `None`.
+-/
 import GT.Base.JsonQ
-open Lean GT.J
+import GT.Model.RepAut
+import GT.Driver.C05
+open Lean GT.J GT GT.RepW
 namespace GT.Driver.C06
-def ops : List (String × Handler) := []
+open GT.Driver.C05
+
+def optNat (j : Json) (k : String) : J.R (Option Nat) :=
+  match j.getObjVal? k with
+  | .ok .null => pure none
+  | .ok v => do pure (some (← nat v))
+  | .error _ => pure none
+
+/-- `{"graph": [[v, [[label, w], …]], …], "starts": [v, …]}` -/
+def autOf (j : Json) : J.R (Aut Nat) := do
+  let g ← (← arr (← field j "graph")).mapM fun row => do
+    let r ← arr row
+    if r.size ≠ 2 then throw "bad graph row"
+    let es ← (← arr r[1]!).mapM fun e => do
+      let p ← arr e
+      if p.size ≠ 2 then throw "bad edge"
+      pure ((← str p[0]!), (← nat p[1]!))
+    pure ((← nat r[0]!), es.toList)
+  let st ← (← arr (← field j "starts")).mapM nat
+  return { graph := g.toList, starts := st.toList }
+
+def outAcc {n : ℕ} (r : AccRes n ℚ) : Json :=
+  Json.mkObj [("mats", .arr (r.mats.map (outMat qIO)).toArray),
+              ("words", .arr (r.words.map Json.str).toArray)]
+
+/-- a sequence of `automaton_accepted` calls sharing (or not) the `precomputed` dict -/
+def runOp (j : Json) : J.R Json := do
+  let n ← natf j "n"
+  let ρ ← build qIO n j
+  let a ← autOf (← field j "aut")
+  let calls ← arr (← field j "calls")
+  let mut memo : Memo Nat n ℚ := []
+  let mut outs : Array Json := #[]
+  for c in calls do
+    let keep := (optBool c "keep").getD false
+    let m0 := if keep then memo else []
+    let r := ρ.automatonAccepted a (← natf c "L") ((optBool c "maxlen").getD true)
+      ((optBool c "with_words").getD false) (← optNat c "start") (← optNat c "end") m0
+      ((optBool c "edge_words").getD true)
+    match r with
+    | .ok (res, m1) =>
+      memo := m1
+      outs := outs.push (Json.mkObj [("ok", outAcc res),
+        ("memo_keys", .arr (m1.map fun kv => Json.arr #[toJson kv.1.1,
+            match kv.1.2 with | none => .null | some v => toJson v]).toArray)])
+    | .error e =>
+      memo := m0
+      outs := outs.push (Json.mkObj [("err", .str e)])
+  return .arr outs
+
+def outWS (l : List (String × Nat)) : Json :=
+  .arr (l.map fun wv => Json.arr #[.str wv.1, toJson wv.2]).toArray
+
+def enumOp (j : Json) : J.R Json := do
+  let a ← autOf (← field j "aut")
+  let s ← match ← optNat j "start" with
+    | some s => pure s
+    | none => match a.starts with
+      | s :: _ => pure s
+      | [] => throw "IndexError"
+  let L ← natf j "L"
+  if (optBool j "fixed").getD false then
+    return outWS (← lift (a.enumFixed s L))
+  return outWS (← lift (a.enumWords s L))
+
+def viewsOp (j : Json) : J.R Json := do
+  let a ← autOf (← field j "aut")
+  let view (d : List (Nat × List String)) : Json :=
+    .arr (d.map fun vl => Json.arr #[toJson vl.1, .arr (vl.2.map Json.str).toArray]).toArray
+  return Json.mkObj [
+    ("vertices", toJson a.vertices),
+    ("out", .arr (a.vertices.map fun v => Json.arr #[toJson v, view ((a.outDict? v).getD [])]).toArray),
+    ("in", .arr (a.vertices.map fun v => Json.arr #[toJson v, view (a.inDict v)]).toArray)]
+
+def freeOp (j : Json) : J.R Json := do
+  let gs ← (← arr (← field j "gens")).mapM str
+  let a := freeAutomaton gs.toList
+  return Json.mkObj [
+    ("graph", .arr (a.graph.map fun vn => Json.arr #[.str vn.1,
+        .arr (vn.2.map fun ln => Json.arr #[.str ln.1, .str ln.2]).toArray]).toArray),
+    ("starts", .arr (a.starts.map Json.str).toArray)]
+
+def freeRedOp (j : Json) : J.R Json := do
+  let n ← natf j "n"
+  let ρ ← build qIO n j
+  let r ← lift (ρ.freelyReducedElements (← natf j "L") ((optBool j "maxlen").getD true)
+    ((optBool j "with_words").getD false))
+  return outAcc r
+
+def freeWordsOp (j : Json) : J.R Json := do
+  let n ← natf j "n"
+  let ρ ← build qIO n j
+  let L ← natf j "L"
+  let ws := if (optBool j "less_than").getD false then ρ.freeWordsLessThan L else ρ.freeWordsOfLength L
+  return .arr (ws.map Json.str).toArray
+
+def ops : List (String × Handler) :=
+  [("c06.run", runOp), ("c06.enum", enumOp), ("c06.views", viewsOp), ("c06.free", freeOp),
+   ("c06.freered", freeRedOp), ("c06.freewords", freeWordsOp)]
 end GT.Driver.C06
